@@ -506,7 +506,18 @@ func (r *Runner) execMacro(a Action) {
 		if L == nil {
 			return
 		}
+		lead := 0
+		if len(a.Set) > 1 && a.Set[1] > 0 {
+			// the state machine is already working on the burst when the snapshot
+			// is requested, so the request waits behind it
+			lead = a.Set[1]
+			r.busyFSM[li].Store(w.Now() + 40)
+		}
 		r.doApply(L, max(2, a.N), 0)
+		if lead > 0 {
+			w.Advance(time.Duration(lead)*time.Millisecond, r.sample)
+			r.feat("snapshot-requested-of-a-busy-state-machine")
+		}
 		r.doSnapshot(L)
 		kind := []string{"addnonvoter", "demote", "addvoter", "remove"}[a.Arg%4]
 		member := 0
@@ -520,6 +531,11 @@ func (r *Runner) execMacro(a Action) {
 			r.doMembership(L, kind, member, 0)
 		}
 		r.feat("snapshot-racing-a-membership-change")
+		if lead > 0 {
+			w.Advance(2*time.Millisecond, r.sample)
+			r.doApply(L, 2, 0)
+			w.Advance(30*time.Millisecond, r.sample)
+		}
 		w.Advance(30*time.Millisecond, r.sample)
 	case "inheritedtail":
 		// commands reach the followers but their acknowledgements are lost, so
